@@ -1515,5 +1515,5 @@ func siteOf(s *State) string {
 }
 
 func shortFile(f string) string {
-	return strings.TrimPrefix(f, "/repo/")
+	return strings.TrimPrefix(f, repoDir+"/")
 }
